@@ -211,10 +211,7 @@ func (cc *ClientConn) newStream(
 		}
 	}
 
-	id, rw, teardown, err := cc.mp.NewStreamReadWriter(ctx)
-	if err != nil {
-		return nil, err
-	}
+	var err error
 
 	beginTime := time.Now()
 	for _, sh := range cc.statsHandlers {
@@ -241,6 +238,13 @@ func (cc *ClientConn) newStream(
 			}
 		}
 	}()
+
+	// A stream which cannot be opened is an RPC too: stats handlers see its
+	// Begin and End, as they do for a unary call on a failed connection.
+	id, rw, teardown, err := cc.mp.NewStreamReadWriter(ctx)
+	if err != nil {
+		return nil, err
+	}
 
 	// open stream
 	rpc := goatorepo.Rpc{
